@@ -410,6 +410,12 @@ def main(argv=None):
                "evals": r.get("evals"), "replay_kind": o.replay, "replay_input": payload,
                "replay_result": detail, "verdict": verdict or "no-failing-input-found",
                "witness_class": wclass, "other_refuted_obligations_not_replayed": not_replayed}
+        if verdict == "spurious" and o.info.get("structural"):
+            # the obligation is a structural fact of the code (lock held, frame, ordering): the refutation stands even though
+            # the bounded replay could not turn it into a failing run
+            verdict = None
+            doc["verdict"] = "no-failing-input-found"
+            doc["note"] = "structural obligation refuted; the replay harness found no failing run within its bound"
         if verdict == "spurious":
             undecided.append((o.name, "counter-model did not replay on the real code (abstraction imprecision)"))
             json.dump(doc, open(fname, "w"), indent=1, default=str)
